@@ -417,7 +417,7 @@ def run(ctx):
         ctx.check_cases("iso.date", gen_dates(ctx, 30_000), oracle_date)
     ctx.check_cases("iso.date.sign-width-beyond-stdlib", gen_beyond_dates(ctx), oracle_date)
     # times ------------------------------------------------------------------------------------
-    ctx.check_cases("iso.time", gen_nods(ctx, ctx.scale(25_000, 2_000_000)), oracle_time)
+    ctx.check_cases("iso.time", gen_nods(ctx, ctx.scale(25_000, 1_000_000)), oracle_time)
     # date-times -------------------------------------------------------------------------------
     ds = gen_dates(ctx, ctx.scale(6_000, 400_000))
     ns = gen_nods(ctx, len(ds))
